@@ -145,8 +145,16 @@ def histories(run, graphs, seeds, length, *, flavour='plain', concurrent=3, read
                 kw['cache'] = [None, '__private__', '__shared__'][seed % 3]
             if kw.get('cache') == '__shared__':
                 kw['cache'] = str(d / 'shared-cache')      # one cache directory for every key (the CLI default for one OS user)
-            s = repodrv.Session(g, d, seed=seed, flavour=flavour, concurrent=concurrent, foreign=foreign, **kw)
-            desc = repodrv.random_history(s, length, reads=reads, **hist_kw)
+            hk = dict(hist_kw)
+            if flavour == 's3':
+                # the real S3 adapter (paged listings, page size 2 or 3) between the commands and the store; fault-free histories only
+                from .. import membackend, s3store
+                st = membackend.Store()
+                s = repodrv.Session(g, d, seed=seed, concurrent=concurrent, foreign=foreign, store=st, backend_factory=s3store.factory(st, 2 + seed % 2), **kw)
+                hk.update(p_crash=0.0, p_overlap_fail=0.0)
+            else:
+                s = repodrv.Session(g, d, seed=seed, flavour=flavour, concurrent=concurrent, foreign=foreign, **kw)
+            desc = repodrv.random_history(s, length, reads=reads, **hk)
             if post:
                 post(s, desc)
             t = s.trace(extra={'history': desc, 'opts': {'flavour': flavour, 'concurrent': concurrent, 'length': length}})
